@@ -1,7 +1,7 @@
 """C07 - cleanup keeps exactly the newest files, compresses losslessly, spares the current file."""
 import gen_flw as g
 
-CLAIM = ("Proved in Coq for the model: (1) the listing the cleanup works on is a sorted permutation of the family's files under a total "
+CLAIM = ("Proved in Coq for the model, END TO END for Numbers naming with KeepLogFiles / KeepCompressedFiles / KeepLogAndCompressedFiles and cleanup in the logging thread, every history of one run from an empty directory: in the end exactly rCURRENT, the newest n closed files (plain, as they were closed) and the next m (complete archives of exactly what the file held) exist, everything older is gone, and what survives is a suffix of what was written (C07_numbers_cleanup, C07_numbers_cleanup_vs_never; side conditions, both shown necessary by counterexamples in Coq: suffix not ending in .gz, at most 100000 rotations). The building blocks hold for every naming: (1) the listing the cleanup works on is a sorted permutation of the family's files under a total "
          "order (C07_listing_sorted) in which - for every suffix and every number of digits of the restart counter - a file written "
          "later under the same time stamp comes before the earlier ones, compressed or not (C07_listing_restart_order, "
          "C07_listing_plain_last; hypothesis: the suffix does not end in .gz); (2) without faults the cleanup keeps the first "
@@ -14,7 +14,7 @@ CLAIM = ("Proved in Coq for the model: (1) the listing the cleanup works on is a
          "logged stream, the numbers of plain files and archives respect the limits, every archive is complete and is a segment of the "
          "logged stream, the file being written is plain (C07_tail_sound, C07_limits_sound: soundness of these oracles). The model "
          "(synchronous and queued background cleanup, compression step by step) is tied to the code by the correspondence check: partial.")
-THEOREMS = ["C07_listing_sorted", "C07_listing_restart_order", "C07_listing_plain_last", "C07_compress_lossless", "C07_cleanup_keeps_newest",
+THEOREMS = ["C07_numbers_cleanup", "C07_numbers_cleanup_vs_never", "C07_listing_sorted", "C07_listing_restart_order", "C07_listing_plain_last", "C07_compress_lossless", "C07_cleanup_keeps_newest",
             "C07_tail_sound", "C07_limits_sound"]
 TRUSTED = ["modelled, not verified: flate2 (validated by decompressing every archive), read_dir, the keyed sort of the listing (modelled as insertion sort by the same key), "
            "the background cleanup thread is modelled as a queue drained at shutdown (interleavings with rotations: not explored here)"]
